@@ -9,7 +9,7 @@ def run():
     for drv in sorted(glob.glob(os.path.join(c.HARNESS, 'drv', '*.c'))):
         name = os.path.basename(drv)[:-2]
         try:
-            c.build_driver(name, lib)
+            c.build_driver(name, lib, shim=(name != 'wfile'))   # wfile.c brings its own write() / fsync()
         except c.Broken as ex:
             print('driver %s failed to build: %s' % (name, ex)); ok = False
     mods = sorted(glob.glob(os.path.join(c.SPEC, '*.tla')))
